@@ -83,6 +83,11 @@ func parseMSL(src string) *Program {
 		}()
 		c.checkRecursion()
 	}()
+	for _, e := range st.entries {
+		if e.Stage == "kernel" {
+			prog.hasLocalSize = true // IsCompute(); the size itself is a dispatch parameter (RunConfig.LocalSize)
+		}
+	}
 	return prog
 }
 
@@ -186,6 +191,42 @@ func (p *Program) EntryPoints() []EntryInfo {
 		if sk.Stage != "" {
 			out = append(out, EntryInfo{Name: sk.Name, Stage: sk.Stage, Unsupported: sk.Err.What})
 		}
+	}
+	return out
+}
+
+// UnsupportedFunctions lists (in source order) the functions of an MSL text
+// that use a valid construct this front end does not model, as "name: reason".
+// Parse succeeds for such a text; Run of a kernel that reaches one of them
+// returns the *UnsupportedError.
+func (p *Program) UnsupportedFunctions() []string {
+	if p.msl == nil {
+		return nil
+	}
+	type item struct {
+		pos Pos
+		s   string
+	}
+	var items []item
+	for _, sk := range p.msl.skippedList {
+		items = append(items, item{sk.Pos, sk.Name + ": " + sk.Err.What})
+	}
+	for fn, ue := range p.msl.unsupportedFn {
+		items = append(items, item{fn.Pos, fn.Name + ": " + ue.What})
+	}
+	sort.Slice(items, func(i, j int) bool {
+		a, b := items[i].pos, items[j].pos
+		if a.Line != b.Line {
+			return a.Line < b.Line
+		}
+		if a.Col != b.Col {
+			return a.Col < b.Col
+		}
+		return items[i].s < items[j].s
+	})
+	var out []string
+	for _, it := range items {
+		out = append(out, it.s)
 	}
 	return out
 }
